@@ -209,6 +209,11 @@ impl TimerWheel {
         }
     }
 
+    #[cfg(calloop_verif)]
+    pub(crate) fn verif_len(&self) -> usize {
+        self.heap.len()
+    }
+
     pub(crate) fn insert(&mut self, deadline: Instant, token: Token) -> u32 {
         self.heap.push(TimeoutData {
             deadline,
